@@ -10,6 +10,7 @@ package main
 
 import (
 	"fmt"
+	"go/constant"
 	"go/token"
 	"go/types"
 	"sort"
@@ -94,6 +95,16 @@ func viewAtom(in ssa.Instruction) (vatom, bool) {
 		}
 	case *ssa.FreeVar:
 		rhs = "free:" + y.Name()
+	case *ssa.UnOp: // a captured variable is a cell: the closure loads it
+		fv, isFree := y.X.(*ssa.FreeVar)
+		if y.Op != token.MUL || !isFree {
+			return vatom{}, false
+		}
+		if b, ok := y.Type().Underlying().(*types.Basic); ok && b.Kind() == types.String {
+			rhs = "peer"
+		} else {
+			rhs = "free:" + fv.Name()
+		}
 	default:
 		return vatom{}, false
 	}
@@ -423,6 +434,54 @@ func ruleSIBviews(w *World, r *Report) {
 				return found
 			})
 			sigs = append(sigs, tbl)
+		}
+		// the same look-up written as slices.IndexFunc / slices.ContainsFunc over this view's records: the predicate is
+		// the closure, "stops on" is "the closure answers true"
+		for _, b := range afn.Blocks {
+			for _, in := range b.Instrs {
+				c, ok := in.(*ssa.Call)
+				if !ok || len(c.Call.Args) != 2 || sliceElemName(c.Call.Args[0].Type()) != v.elem {
+					continue
+				}
+				callee := c.Call.StaticCallee()
+				if callee == nil || callee.Pkg == nil && callee.Origin() == nil {
+					continue
+				}
+				o := callee
+				if callee.Origin() != nil {
+					o = callee.Origin()
+				}
+				if o.Pkg == nil || o.Pkg.Pkg.Path() != "slices" || (o.Name() != "IndexFunc" && o.Name() != "ContainsFunc") {
+					continue
+				}
+				var pred *ssa.Function
+				switch f := c.Call.Args[1].(type) {
+				case *ssa.MakeClosure:
+					pred, _ = f.Fn.(*ssa.Function)
+				case *ssa.Function:
+					pred = f
+				}
+				if pred == nil || len(pred.Blocks) == 0 {
+					sigs = append(sigs, "predicate-not-a-function-literal")
+					continue
+				}
+				all := map[*ssa.BasicBlock]bool{}
+				for _, pb := range pred.Blocks {
+					all[pb] = true
+				}
+				undecided := false
+				tbl, _ := truthTable(pred, all, func(assume map[ssa.Value]bool) bool {
+					res, known := closureAnswers(pred, assume)
+					if !known {
+						undecided = true
+					}
+					return res
+				})
+				if undecided {
+					tbl = "predicate-not-evaluated"
+				}
+				sigs = append(sigs, tbl)
+			}
 		}
 		sort.Strings(sigs)
 		lookSig[v.name] = strings.Join(sigs, " ; ")
@@ -890,4 +949,69 @@ func ruleGRDtime(w *World, r *Report) {
 	if n < 4 {
 		r.Und("GRD-time", "anchor:time-travel-reads", "", fmt.Sprintf("expected ≥4 time-filtered reads in functions that take the query time, found %d", n))
 	}
+}
+
+// closureAnswers evaluates a boolean function literal under an assignment of its comparison atoms: the blocks are walked
+// from the entry along the branches the assignment selects, phis take the value of the edge they were entered through.
+// known=false when a branch or the result depends on something that is not an atom.
+func closureAnswers(fn *ssa.Function, assume map[ssa.Value]bool) (result, known bool) {
+	var prev, b *ssa.BasicBlock
+	var eval func(v ssa.Value, depth int) (bool, bool)
+	eval = func(v ssa.Value, depth int) (bool, bool) {
+		if depth > 12 {
+			return false, false
+		}
+		if b, ok := assume[v]; ok {
+			return b, true
+		}
+		switch x := v.(type) {
+		case *ssa.Const:
+			if x.Value != nil && x.Value.Kind() == constant.Bool {
+				return constant.BoolVal(x.Value), true
+			}
+		case *ssa.UnOp:
+			if x.Op == token.NOT {
+				b, ok := eval(x.X, depth+1)
+				return !b, ok
+			}
+		case *ssa.Phi:
+			if x.Block() != b { // a phi of an earlier block: the edge it was entered through is no longer known
+				return false, false
+			}
+			for i, p := range x.Block().Preds {
+				if p == prev {
+					return eval(x.Edges[i], depth+1)
+				}
+			}
+		}
+		return false, false
+	}
+	b = fn.Blocks[0]
+	for steps := 0; steps < 64; steps++ {
+		// phis of b were entered from prev; evaluate lazily at use. A phi used by a later block is not supported.
+		switch t := b.Instrs[len(b.Instrs)-1].(type) {
+		case *ssa.Return:
+			if len(t.Results) != 1 {
+				return false, false
+			}
+			return eval(t.Results[0], 0)
+		case *ssa.If:
+			c, ok := eval(t.Cond, 0)
+			if !ok {
+				return false, false
+			}
+			prev = b
+			if c {
+				b = b.Succs[0]
+			} else {
+				b = b.Succs[1]
+			}
+		case *ssa.Jump:
+			prev = b
+			b = b.Succs[0]
+		default:
+			return false, false
+		}
+	}
+	return false, false
 }
